@@ -28,6 +28,9 @@
 //	W | Ws               the request is handed to the logger as martian.Proxy.handle presents it to modifiers:
 //	                     URL.Scheme = http (Ws: https, a secure session), URL.Host filled from Host when empty;
 //	                     the re-parsed snapshot gets the same treatment before it is compared
+//	Z<k>:<once|ever>     failing log sink (marbl: the io.Writer of the stream): its k-th Write fails, once or from then on.
+//	                     Every case runs under a watchdog: OUT is the single token STALL when the exchange (logging,
+//	                     reading the body, Write, and a later exchange through the same modifier) does not finish
 //	C<n>                 run n variants of the case (body seeds +1..+n) concurrently; fwd=0 unless each equals its sequential run
 //	K<n>                 chunk size used on the wire (default: one chunk)
 //	T<hexkey>:<hexval>   trailer field sent; D<hexkey> trailer declared only; U: do not declare sent trailers
@@ -53,6 +56,7 @@ import (
 	"strconv"
 	"strings"
 	"sync"
+	"time"
 
 	"github.com/google/martian/v3"
 	"github.com/google/martian/v3/har"
@@ -93,6 +97,8 @@ type spec struct {
 	srcKind    string
 	srcPos     int
 	presented  string // "", "http", "https"
+	sinkFail   int    // k-th write of the log sink fails (0: never)
+	sinkEver   bool
 }
 
 func genBody(n int, seed uint64, enc string) []byte {
@@ -200,6 +206,13 @@ func parseSpec(in []string) *spec {
 			s.noHost = true
 		case t == "U":
 			s.undeclared = true
+		case t[0] == 'Z':
+			p := strings.SplitN(t[1:], ":", 2)
+			s.sinkFail, _ = strconv.Atoi(p[0])
+			s.sinkEver = len(p) == 2 && p[1] == "ever"
+			if s.sinkFail <= 0 {
+				s.bad = "Z"
+			}
 		case t == "W":
 			s.presented = "http"
 		case t == "Ws":
@@ -730,14 +743,21 @@ func framing(w []byte) string {
 // ---------------------------------------------------------------- loggers
 
 type syncBuf struct {
-	mu     sync.Mutex
-	frames [][]byte
+	mu       sync.Mutex
+	frames   [][]byte // every frame handed to the sink, also those whose Write failed
+	writes   int
+	failAt   int
+	failEver bool
 }
 
 func (s *syncBuf) Write(p []byte) (int, error) {
 	s.mu.Lock()
 	defer s.mu.Unlock()
 	s.frames = append(s.frames, append([]byte(nil), p...))
+	s.writes++
+	if s.failAt > 0 && (s.writes == s.failAt || (s.failEver && s.writes > s.failAt)) {
+		return 0, errors.New("c15: log sink failed (disk full)")
+	}
 	return len(p), nil
 }
 
@@ -773,7 +793,7 @@ func cts(s string) []string {
 }
 
 // newRunner builds a fresh logger of the requested kind; apply runs it on a message.
-func newRunner(lg string, isReq bool) (*runner, string) {
+func newRunner(lg string, isReq bool, sink ...int) (*runner, string) {
 	p := strings.Split(lg, ":")
 	r := &runner{kind: p[0], records: func() int { return 0 }, flush: func() {}}
 	switch p[0] {
@@ -863,6 +883,9 @@ func newRunner(lg string, isReq bool) (*runner, string) {
 		}
 	case "marbl":
 		sb := &syncBuf{}
+		if len(sink) == 2 {
+			sb.failAt, sb.failEver = sink[0], sink[1] == 1
+		}
 		mod := marbl.NewModifier(sb)
 		var id string
 		r.apply = func(m *message) error {
@@ -1004,7 +1027,27 @@ func runCase(in []string) []string {
 	return out
 }
 
-func runOne(in []string) (out []string) {
+// runOne runs a case under a watchdog: an exchange that a logger stalls (for
+// example a sender blocked for ever on a log stream nobody drains) is
+// reported as STALL instead of hanging the harness.
+func runOne(in []string) []string {
+	limit := 60 * time.Second
+	for _, t := range in {
+		if t[0] == 'Z' {
+			limit = 1500 * time.Millisecond // nothing in these small cases takes long
+		}
+	}
+	done := make(chan []string, 1)
+	go func() { done <- runOneInner(in) }()
+	select {
+	case out := <-done:
+		return out
+	case <-time.After(limit):
+		return []string{"STALL"}
+	}
+}
+
+func runOneInner(in []string) (out []string) {
 	defer func() {
 		if r := recover(); r != nil {
 			out = append(out, "PANIC")
@@ -1050,7 +1093,11 @@ func runOne(in []string) (out []string) {
 	out = append(out, tw[0].fields("o")...)
 	uw, _, uerr := tw[1].wire()
 
-	r1, bad := newRunner(s.logger, s.isReq)
+	ever := 0
+	if s.sinkEver {
+		ever = 1
+	}
+	r1, bad := newRunner(s.logger, s.isReq, s.sinkFail, ever)
 	if bad != "" {
 		return []string{"badcase:" + bad}
 	}
@@ -1060,7 +1107,7 @@ func runOne(in []string) (out []string) {
 	r1.flush()
 	rec := r1.records()
 
-	r2, _ := newRunner(s.logger, s.isReq)
+	r2, _ := newRunner(s.logger, s.isReq, s.sinkFail, ever)
 	e2 := r2.run(tw[3])
 	disturb(s.logger, len(s.entity))
 	lw, _, lerr := tw[3].wire()
@@ -1629,6 +1676,23 @@ func main() {
 							fmt.Sprintf("E%s:%d", ek, pos))
 						emit("src", in)
 					}
+				}
+			}
+		}
+	}
+
+	// 9. failing log sinks: the exchange in flight and the next one through the same modifier must still be delivered
+	for _, kind := range []string{"REQ", "RES"} {
+		for _, fr := range []string{"cl", "ch"} {
+			for _, k := range []int{1, 5, 12} {
+				for _, mode := range []string{"once", "ever"} {
+					in := []string{kind, "lg=marbl", "skip=0"}
+					if kind == "REQ" {
+						in = append(in, "MPOST")
+					}
+					in = append(in, hkv("Content-Type", "text/plain"), "F"+fr, fmt.Sprintf("G1500:%d:id", rng.Intn(1000)),
+						fmt.Sprintf("Z%d:%s", k, mode))
+					emit("sink", in)
 				}
 			}
 		}
